@@ -60,7 +60,9 @@ def run(fx, chk, tier):
     wc = fx.impl_fn("Mp4TrackWriter", None, "write_chunk")
     twe = fx.impl_fn("Mp4TrackWriter", None, "write_end")
     tws = fx.impl_fn("Mp4TrackWriter", None, "write_sample")
-    for nm, f in (("write_start", ws), ("write_end", we), ("write_sample", wsm), ("update_mdat_size", um), ("write_chunk", wc), ("track write_end", twe)):
+    # (the private helpers update_mdat_size / write_chunk are not anchors: what they do is read off the effect traces of
+    # the public entry points, whatever they are called)
+    for nm, f in (("write_start", ws), ("write_end", we), ("write_sample", wsm), ("track write_end", twe)):
         if not chk.anchor("R3", nm, f):
             return chk.finish("other", "anchors missing")
 
@@ -241,9 +243,17 @@ def run(fx, chk, tier):
         chk.require(bool(good), "R6", "movie duration", "max(old, track duration): %s" % why, "the writer's movie duration is not max(old, track duration): %s" % why, site_of(wud))
     stores = {}
     for tr in M.traces(M.w_end):
+        # the header value at the end of the path: later stores / a later struct literal override earlier ones
+        cur = {}
         for e in tr:
             if e["k"] == "store" and e["adt"] == "MvhdBox":
-                stores.setdefault(e["field"], set()).add(e["val"])
+                cur[e["field"]] = e["val"]
+            if e["k"] == "agg" and str(e.get("adt", "")).endswith("MvhdBox"):
+                for fk, fv in (e.get("fields") or {}).items():
+                    cur[fk] = fv
+        for fk in ("timescale", "duration"):
+            if fk in cur:
+                stores.setdefault(fk, set()).add(cur[fk])
     chk.require(stores.get("timescale") == {"$1.timescale"} and stores.get("duration") == {"$1.duration"}, "R6", "mvhd", "mvhd.timescale/duration copied from the writer",
                 "mvhd.timescale / mvhd.duration are not copied from the writer's fields in write_end (%s)" % {k: sorted(v) for k, v in stores.items()}, site_of(we))
     # ---------------- R7
